@@ -114,20 +114,6 @@ func (e *promEnv) setup(r *rand.Rand, c *concr, db []absSeries, names []string, 
 			fp := newFp()
 			st.Fps = append(st.Fps, fp)
 			lj, _ := json.Marshal(st.Labels)
-			if k == 1 { // same label set, other key order (another writer / fingerprint function)
-				var ks []string
-				for n := range st.Labels {
-					ks = append(ks, n)
-				}
-				sort.Sort(sort.Reverse(sort.StringSlice(ks)))
-				var parts []string
-				for _, n := range ks {
-					kb, _ := json.Marshal(n)
-					vb, _ := json.Marshal(st.Labels[n])
-					parts = append(parts, string(kb)+":"+string(vb))
-				}
-				lj = []byte("{" + strings.Join(parts, ",") + "}")
-			}
 			tsRows = append(tsRows, []any{uint8(2), e.day, fp, string(lj), ""})
 			if mode == "duprows" {
 				tsRows = append(tsRows, []any{uint8(2), e.day, fp, string(lj), ""})
@@ -220,7 +206,8 @@ func selectMain(fs *flag.FlagSet, args []string) error {
 	env := &promEnv{w: w, svc: &service.CLokiQueriable{ServiceData: model.ServiceData{Session: w.Reg}}, router: mux.NewRouter()}
 	rrouter.RouteSelectPrometheusLabels(env.router, w.Reg)
 	env.day = time.Date(2023, 11, 14, 0, 0, 0, 0, time.UTC).AddDate(0, 0, int(*seed%200))
-	env.base = env.day.Add(10*time.Hour + time.Duration(*seed%3600)*time.Second)
+	// base = 1 s past a multiple of 10 s: the windows of the step10s/range3s hint variant are not multiples of the step
+	env.base = env.day.Add(10*time.Hour + time.Duration(*seed%360)*10*time.Second + time.Second)
 	env.start = env.base.UnixMilli() + 10000
 	env.end = env.base.UnixMilli() + 70000
 
@@ -348,6 +335,32 @@ func selectMain(fs *flag.FlagSet, args []string) error {
 			for _, o := range obs {
 				seen[o.Labels["zz_uid"]]++
 			}
+			if !hv.Raw && hv.Range > 0 && hv.Step > hv.Range {
+				// a series none of whose samples survive the window filter of processHints is not handed out at all:
+				// that is a matter of samples (judged here), not of selection
+				for u, st := range exp {
+					if seen[u] > 0 {
+						continue
+					}
+					var want []smp
+					for _, x := range st.Samples {
+						if x.T > env.start && x.T <= env.end {
+							want = append(want, x)
+						}
+					}
+					if sampleClass(hv, env, nil, want) != "" {
+						viol.add("select|prom|samples|needed-window-sample-dropped",
+							fmt.Sprintf("series %s hints %s: no samples at all, stored in (start,end]: %v", fmtLabels(st.Labels), hv.Name, want), detail(nil))
+					}
+					delete(exp, u)
+					delete(mech, u)
+				}
+				for u := range mech {
+					if seen[u] == 0 {
+						delete(mech, u)
+					}
+				}
+			}
 			var missing, extra, twice []string
 			for u := range exp {
 				if seen[u] == 0 {
@@ -413,7 +426,7 @@ func selectMain(fs *flag.FlagSet, args []string) error {
 					}
 				}
 				if cl := sampleClass(hv, env, o.Samples, want); cl != "" {
-					viol.add("select|prom|samples|"+cl+"|hints="+hv.Name+storeSuffix(mode), fmt.Sprintf("series %s hints %s: samples %v, stored in (start,end]: %v", fmtLabels(st.Labels), hv.Name, o.Samples, want), detail(nil))
+					viol.add("select|prom|samples|"+cl+sampleStoreSuffix(cl, mode), fmt.Sprintf("series %s hints %s: samples %v, stored in (start,end]: %v", fmtLabels(st.Labels), hv.Name, o.Samples, want), detail(nil))
 				}
 			}
 			if len(samples) < 2 && len(exp) > 0 && len(exp) < len(stored) && len(ms) > 1 {
@@ -429,6 +442,14 @@ func selectMain(fs *flag.FlagSet, args []string) error {
 		stats["trait_"+t] = n
 	}
 	return writeJSON(*outp, map[string]any{"stats": stats, "violations": viol.list(), "infra": infra, "samples": samples})
+}
+
+// the window filter is independent of how the series are stored
+func sampleStoreSuffix(class, mode string) string {
+	if class == "needed-window-sample-dropped" {
+		return ""
+	}
+	return storeSuffix(mode)
 }
 
 func storeSuffix(mode string) string {
